@@ -180,6 +180,58 @@ fn deep_chains(tier: &str) -> Vec<Vec<u8>> {
     outv
 }
 
+/// C03: every Encoder method over exhaustive 8/16-bit ranges, boundary-dense and random wider arguments, all simple
+/// values, lengths of strings, and random call sequences (balanced or not: the specification classifies them).
+#[cfg(feature = "alloc")]
+fn gen_c03(sink: &mut Sink, tier: &str, seed: u64) {
+    let mut rng = StdRng::seed_from_u64(seed ^ 0xc03);
+    let thorough = tier == "thorough";
+    let ival = |v: i128| -> (bool, u64) { if v >= 0 { (false, v as u64) } else { (true, (-1 - v) as u64) } };
+    let mut put_int = |sink: &mut Sink, m: &str, v: i128| {
+        let (neg, mag) = ival(v);
+        sink.distinct_inputs += 1;
+        sink.call("enc", m, &json!({"m": m, "neg": neg, "mag": crate::abs::u64b(mag)}));
+    };
+    for v in 0..=255i128 { put_int(sink, "u8", v); put_int(sink, "i8", v - 128); }
+    let step16 = if thorough { 1 } else { 13 };
+    for v in (0..=65535i128).step_by(step16) { put_int(sink, "u16", v); put_int(sink, "i16", v - 32768); }
+    let mut wide: Vec<i128> = vec![];
+    for k in 0..=64u32 { for d in -3i128..=3 { wide.push((1i128 << k) + d); wide.push(-(1i128 << k) + d); } }
+    for _ in 0..(if thorough { 40000 } else { 3000 }) { let bits = rng.gen_range(0..=64); let m: i128 = (rng.gen::<u64>() as i128) & ((1i128 << bits) - 1); wide.push(m); wide.push(-1 - m); }
+    if thorough { for v in 0..=0x1ffffi128 { wide.push(v); wide.push(-v); } } else { for v in (0..=0x1ffffi128).step_by(29) { wide.push(v); wide.push(-v); } }
+    for v in wide {
+        if v >= 0 && v <= u32::MAX as i128 { put_int(sink, "u32", v) }
+        if v >= i32::MIN as i128 && v <= i32::MAX as i128 { put_int(sink, "i32", v) }
+        if v >= 0 && v <= u64::MAX as i128 { put_int(sink, "u64", v) }
+        if v >= i64::MIN as i128 && v <= i64::MAX as i128 { put_int(sink, "i64", v) }
+        if v >= -(1i128 << 64) && v < (1i128 << 64) { put_int(sink, "int", v) }
+        if v >= 0 && v <= u64::MAX as i128 {
+            for m in ["tag", "array", "map"] { sink.call("enc", m, &json!({"m": m, "n": crate::abs::u64b(v as u64)})) }
+        }
+        if v >= 0 && v < 0x110000 && char::from_u32(v as u32).is_some() { sink.call("enc", "char", &json!({"m": "char", "i": v})) }
+    }
+    for n in 0..=255 { sink.call("enc", "simple", &json!({"m": "simple", "i": n})) }
+    for b in [true, false] { sink.call("enc", "bool", &json!({"m": "bool", "b": b})) }
+    for m in ["null", "undefined", "begin_array", "begin_map", "begin_bytes", "begin_str", "end"] { sink.call("enc", m, &json!({"m": m})) }
+    for n in [0usize, 1, 22, 23, 24, 25, 254, 255, 256, 257, 1000, 65535, 65536, 65537] {
+        if n > 1000 && !thorough { continue }
+        let b: Vec<u8> = (0..n).map(|i| (i * 7 % 128) as u8).collect();
+        for m in ["bytes", "str"] { sink.call("enc", m, &json!({"m": m, "b": crate::abs::bytes(&b)})) }
+    }
+    // random call sequences
+    let alphabet: Vec<Value> = vec![json!({"m":"u8","neg":false,"mag":crate::abs::u64b(7)}), json!({"m":"i16","neg":true,"mag":crate::abs::u64b(300)}),
+        json!({"m":"array","n":crate::abs::u64b(0)}), json!({"m":"array","n":crate::abs::u64b(1)}), json!({"m":"array","n":crate::abs::u64b(2)}),
+        json!({"m":"map","n":crate::abs::u64b(1)}), json!({"m":"map","n":crate::abs::u64b(2)}), json!({"m":"begin_array"}), json!({"m":"begin_map"}),
+        json!({"m":"end"}), json!({"m":"tag","n":crate::abs::u64b(1000)}), json!({"m":"str","b":[104, 105]}), json!({"m":"begin_str"}),
+        json!({"m":"begin_bytes"}), json!({"m":"bytes","b":[1, 2, 3]}), json!({"m":"null"}), json!({"m":"bool","b":true}), json!({"m":"simple","i":99})];
+    for _ in 0..(if thorough { 60000 } else { 6000 }) {
+        let n = rng.gen_range(1..10);
+        let calls: Vec<Value> = (0..n).map(|_| alphabet[rng.gen_range(0..alphabet.len())].clone()).collect();
+        sink.distinct_inputs += 1;
+        sink.call("encseq", "calls", &json!({"calls": calls}));
+    }
+}
+
 /// C12: encode -> decode of f32 / f64 bit patterns (exponent boundaries, subnormals, zeros, infinities, NaN payloads,
 /// f32-representable doubles, seeded random), widening reads, narrowing writes.
 #[cfg(all(feature = "alloc", feature = "half"))]
@@ -347,6 +399,8 @@ pub fn cmd_gen(args: &[String]) -> i32 {
     match fam.as_str() {
         "c05" => gen_c05(&mut sink, tier, seed),
         "c06" => gen_c06(&mut sink, tier, seed),
+        #[cfg(feature = "alloc")]
+        "c03" => gen_c03(&mut sink, tier, seed),
         #[cfg(all(feature = "alloc", feature = "half"))]
         "c12" => gen_c12(&mut sink, tier, seed),
         #[cfg(all(feature = "alloc", feature = "half"))]
